@@ -3,6 +3,7 @@
 package main
 
 import (
+	"bytes"
 	"fmt"
 	"math"
 	"math/big"
@@ -14,7 +15,7 @@ import (
 )
 
 func init() {
-	Register(&Prop{ID: "C24", Gen: c24Gen, New: func() Runner { return c24Runner{} }})
+	Register(&Prop{ID: "C24", Gen: c24Gen, New: func() Runner { return &c24Runner{} }})
 }
 
 func c24Boundary(g *Gen) *big.Int {
@@ -33,6 +34,10 @@ func c24Boundary(g *Gen) *big.Int {
 }
 
 func c24Big(g *Gen) *big.Int {
+	if g.Intn(8) == 0 {
+		// single-byte neighbourhood, repeated often within a run
+		return big.NewInt(int64(g.Intn(300) - 150))
+	}
 	switch g.Intn(4) {
 	case 0:
 		return c24Boundary(g)
@@ -229,9 +234,64 @@ func c24Mutate(g *Gen, v *big.Int) string {
 // (the non-negative part is the jsonrpc validator's t_int pattern).
 var c24HexMinimal = regexp.MustCompile(`\A-?0x(0|[1-9a-f][0-9a-f]*)\z`)
 
-type c24Runner struct{}
+// c24Held is an encoder result recorded earlier in the run: the value's
+// encoding must stay what it was, whatever callers did to returned slices since.
+type c24Held struct {
+	kind, val string
+	want      []byte
+	again     func() []byte
+}
 
-func (c24Runner) Step(t []string, o *Oracle) string {
+type c24Runner struct {
+	held []c24Held
+	next int
+}
+
+const c24HeldMax = 12
+
+// own treats bs as what it is for every caller of the encoders: a buffer the
+// caller owns.  It records the result, calls the encoder again (equal bytes,
+// distinct memory), then overwrites the whole backing array of the first
+// result (its spare capacity included = what an append would write) and
+// appends to it, and checks that neither a fresh call nor any result held
+// from earlier operations has changed.  Returns the wire form of the
+// result as it was before the caller touched it.
+func (r *c24Runner) own(o *Oracle, kind, val string, bs []byte, again func() []byte) string {
+	out := hx(bs)
+	want := append([]byte(nil), bs...)
+	b2 := again()
+	o.Check(bytes.Equal(b2, want), kind+"-encoder-not-deterministic", "%s(%s) = %x, then %x", kind, val, want, b2)
+	if len(bs) > 0 && len(b2) > 0 {
+		o.Check(&bs[0] != &b2[0], kind+"-encoder-results-share-memory", "two calls of %s(%s) return the same backing memory", kind, val)
+	}
+	if cap(bs) > len(bs) {
+		o.Count(kind + "-spare-capacity")
+	}
+	full := bs[:cap(bs)]
+	for i := range full {
+		full[i] ^= 0xa5
+	}
+	bs = append(bs, 0xaa, 0xbb, 0xcc)
+	for i := range bs {
+		bs[i] = 0x5a
+	}
+	b3 := again()
+	o.Check(bytes.Equal(b3, want), kind+"-encoder-result-aliases-shared-state", "after the caller overwrote/appended to an earlier result, %s(%s) = %x, want %x", kind, val, b3, want)
+	for _, h := range r.held {
+		got := h.again()
+		o.Check(bytes.Equal(got, h.want), h.kind+"-encoding-changed-by-history", "%s(%s) was %x, is %x after later calls mutated their own results (last: %s %s)", h.kind, h.val, h.want, got, kind, val)
+	}
+	h := c24Held{kind: kind, val: val, want: want, again: again}
+	if len(r.held) < c24HeldMax {
+		r.held = append(r.held, h)
+	} else {
+		r.held[r.next%c24HeldMax] = h
+	}
+	r.next++
+	return out
+}
+
+func (r *c24Runner) Step(t []string, o *Oracle) string {
 	if len(t) == 3 && (t[0] == "parse_int" || t[0] == "parse_uint") {
 		bits, err := strconv.Atoi(t[1])
 		if err != nil || (bits != 16 && bits != 32 && bits != 64) {
@@ -269,7 +329,7 @@ func (c24Runner) Step(t []string, o *Oracle) string {
 		back, ok := intconv.SafeBytesToInt64(bs)
 		o.Check(ok && back == v, "i64-roundtrip", "Int64ToBytes(%d)=%x decodes to %d,%v", v, bs, back, ok)
 		o.Check(minimalSigned(bs), "i64-minimal", "Int64ToBytes(%d)=%x not minimal", v, bs)
-		return hx(bs)
+		return r.own(o, "Int64ToBytes", arg, bs, func() []byte { return intconv.Int64ToBytes(v) })
 	case "u64":
 		v, err := strconv.ParseUint(arg, 10, 64)
 		if err != nil {
@@ -279,7 +339,7 @@ func (c24Runner) Step(t []string, o *Oracle) string {
 		back, ok := intconv.SafeBytesToUint64(bs)
 		o.Check(ok && back == v, "u64-roundtrip", "Uint64ToBytes(%d)=%x decodes to %d,%v", v, bs, back, ok)
 		o.Check(minimalSigned(bs) && bs[0]&0x80 == 0, "u64-minimal", "Uint64ToBytes(%d)=%x not minimal", v, bs)
-		return hx(bs)
+		return r.own(o, "Uint64ToBytes", arg, bs, func() []byte { return intconv.Uint64ToBytes(v) })
 	case "size":
 		v, err := strconv.ParseUint(arg, 10, 64)
 		if err != nil {
@@ -289,7 +349,7 @@ func (c24Runner) Step(t []string, o *Oracle) string {
 		back, ok := intconv.SafeBytesToSize64(bs)
 		o.Check(ok && back == v, "size-roundtrip", "SizeToBytes(%d)=%x decodes to %d,%v", v, bs, back, ok)
 		o.Check(len(bs) == 1 || bs[0] != 0, "size-minimal", "SizeToBytes(%d)=%x not minimal", v, bs)
-		return hx(bs)
+		return r.own(o, "SizeToBytes", arg, bs, func() []byte { return intconv.SizeToBytes(v) })
 	case "big":
 		v, ok := new(big.Int).SetString(arg, 10)
 		if !ok {
@@ -304,7 +364,20 @@ func (c24Runner) Step(t []string, o *Oracle) string {
 		var h2 common.HexInt
 		h2.SetBytes(h.Bytes())
 		o.Check(h2.Cmp(v) == 0, "hexint-bytes-roundtrip", "HexInt bytes round trip %s -> %s", v, &h2.Int)
-		return hx(bs)
+		r.own(o, "HexInt.Bytes", arg, h.Bytes(), func() []byte { return h.Bytes() })
+		o.Check(h.Cmp(v) == 0, "hexint-value-aliases-bytes", "HexInt %s changed to %s after its Bytes() were overwritten", v, &h.Int)
+		if v.IsInt64() {
+			// the same number through the int64 encoder (HexInt16.Bytes etc. use it)
+			i := v.Int64()
+			r.own(o, "Int64ToBytes", arg, intconv.Int64ToBytes(i), func() []byte { return intconv.Int64ToBytes(i) })
+		}
+		if v.Sign() == 0 {
+			r.own(o, "BytesForZero", arg, intconv.BytesForZero(), intconv.BytesForZero)
+		}
+		out := r.own(o, "BigIntToBytes", arg, bs, func() []byte { return intconv.BigIntToBytes(v) })
+		back2 := intconv.BigIntSetBytes(new(big.Int), unhx(out))
+		o.Check(back2.Cmp(v) == 0 && v.String() == arg, "big-value-aliases-bytes", "big %s changed to %s after its bytes were overwritten", arg, v)
+		return out
 	case "d_i64":
 		in := unhx(arg)
 		v, ok := intconv.SafeBytesToInt64(in)
@@ -347,6 +420,15 @@ func (c24Runner) Step(t []string, o *Oracle) string {
 	case "d_big":
 		in := unhx(arg)
 		v := intconv.BigIntSetBytes(new(big.Int), in)
+		{
+			// the caller owns (and may reuse) its input buffer after the call
+			before := v.String()
+			for i := range in {
+				in[i] ^= 0xa5
+			}
+			o.Check(v.String() == before, "big-decoder-aliases-input", "BigIntSetBytes(%s) changed from %s to %s when the input buffer was reused", arg, before, v)
+			in = unhx(arg)
+		}
 		if len(in) > 0 {
 			enc := intconv.BigIntToBytes(v)
 			o.Check(len(enc) <= len(in), "big-encoder-not-shortest", "%x decodes to %s but BigIntToBytes gives longer %x", in, v, enc)
